@@ -7,8 +7,9 @@ queue only when not paused, one handler at a time — is what C01/C02 justify), 
 operation issued from outside the actor system.  User code is a scripted rule table
 (`Script`); the lock-step harness interprets the same table inside a real `vivid.ActorFN`.
 
-`fixedLaunch` selects where `handleRestart` sends the post-restart `OnLaunch`:
-`false` — to `ctx.parent` (the code as found), `true` — to the restarted actor itself.
+`fixedLaunch` selects what `handleRestart` does with the post-restart `OnLaunch`:
+`false` — enqueued to `ctx.parent` (the code as found), `true` — handled by the restarted actor
+itself, synchronously at the end of the restart (the code as repaired).
 -/
 namespace Vivid.ActorSys
 
@@ -358,9 +359,16 @@ def handleRestart (s : Sys) (self : Cid) : Sys :=
     say (upd s1 self (fun x => { x with zombie := true, paused := false })) s!"zombie:{self}"
   else
     let s2 := upd s1 self (fun x => { x with restarting := none, state := .running, inc := x.inc + 1 })
-    let tgt : Target := if s.fixedLaunch then .own self else (match c.parent with | some p => .own p | none => .nobody)
-    let s3 := tell s2 true (some self) tgt .onLaunch
-    say (upd s3 self (fun x => { x with paused := false })) s!"restarted:{self}"
+    if s.fixedLaunch then
+      -- repaired: the new incarnation's OnLaunch is handled right here, at the end of the restart,
+      -- before anything that is already queued (it used to be enqueued behind the pending system mail)
+      let s3 := say (upd s2 self (fun x => { x with paused := false })) s!"restarted:{self}"
+      execRecover s3 self c.script { id := 0, sys := true, sender := some self, msg := .onLaunch } .onLaunch
+    else
+      -- the code as found sent it to the parent
+      let tgt : Target := match c.parent with | some p => .own p | none => .nobody
+      let s3 := tell s2 true (some self) tgt .onLaunch
+      say (upd s3 self (fun x => { x with paused := false })) s!"restarted:{self}"
 
 /-- `onKilled`. -/
 def onKilled (s : Sys) (self : Cid) (beh : Nat) (cur : Env) (who : Cid) : Sys :=
